@@ -372,7 +372,7 @@ def pipeline(seed, tier):
     for p, m in gen.gen_chains_random(seed + 1, sz["chains"]) + gen.gen_chains_exhaustive(seed + 2, sz["chain_exh"]):
         batch.append((ser(p), m))
     for p, m in gen.gen_skeletons(sz["skel"]) + (gen.gen_name_triples() if sz["names"] else []) + gen.gen_tiny(sz["tiny"]) \
-            + gen.gen_retmix({"quick": 6, "search": 2}.get(tier, 1)) + gen.gen_typeeq() + gen.gen_wide() + gen.gen_shapes2() \
+            + gen.gen_retmix({"quick": 6, "search": 2}.get(tier, 1)) + gen.gen_typeeq() + gen.gen_wide() + gen.gen_shapes2() + gen.gen_data() \
             + (gen.gen_deep() if tier == "thorough" else gen.gen_deep()[:1] + gen.gen_deep()[3:4] + gen.gen_deep()[-4:]):
         batch.append((ser(p), m))
     # the same programs as an AST built with Ident::new has them: every identifier at (1, 0)
